@@ -149,6 +149,8 @@ pub fn plan(tier: Tier) -> Plan {
     Tier::Thorough => (7, 6),
   };
   let kinds = [
+    // boundary: no inner observable is ever admitted (and so the result never completes)
+    FlatKind::MergeAll(0),
     FlatKind::MergeAll(1),
     FlatKind::MergeAll(2),
     FlatKind::MergeAll(3),
@@ -166,7 +168,9 @@ pub fn plan(tier: Tier) -> Plan {
         let three = t.iter().any(|i| matches!(i, Hot(2)));
         jobs.push(flat_job(kind, t.clone(), form, if three { len3 } else { len }));
       }
-      jobs.push(outer_stops_job(kind, form));
+      if kind != FlatKind::MergeAll(0) {
+        jobs.push(outer_stops_job(kind, form));
+      }
     }
   }
   Plan {
